@@ -4,9 +4,17 @@
 #ifndef VERIF_C11_COMMON_HH
 #define VERIF_C11_COMMON_HH 1
 
+// Only the numeric kernel is included (not ppl_include_files.hh): the harness then depends on -- and is rebuilt
+// for -- changes of the checked-number headers only.  c11_main.cc includes initializer.hh, whose static Init object
+// puts the FPU in the rounding mode the library runs in (upward).
 #include "ppl-config.h"
 #include "version.hh"
-#include "ppl_include_files.hh"
+#include "Checked_Number_defs.hh"
+#include "checked_numeric_limits.hh"
+#include "WRD_coefficient_types_defs.hh"
+#if defined(PPL_CHECKED_INTEGERS) || defined(PPL_NATIVE_INTEGERS)
+#include "Coefficient_defs.hh"
+#endif
 #include "engine/common.hh"
 #include <gmpxx.h>
 #include <memory>
@@ -556,8 +564,9 @@ inline void verdict(const CaseCtx& c, const DestInfo& D, const Exact& E, unsigne
   if (cl) report(c, E, r, S, cl);
 }
 
-void register_int8(); void register_int16_32(); void register_int64(); void register_float(); void register_mp();
-void register_conv_a(); void register_conv_b(); void register_conv_c();
+void register_int8(); void register_uint8(); void register_int16(); void register_int32(); void register_int64(); void register_llong();
+void register_float(); void register_double(); void register_ldouble(); void register_mpz(); void register_mpq();
+void register_conv_a(); void register_conv_b(); void register_conv_c(); void register_conv_d(); void register_conv_e();
 
 } // namespace c11
 #endif
